@@ -77,6 +77,22 @@ def check_schedule(run, sim, params_of, witness, stats):
                 typ, code, mid = hdr(b)
                 if typ in (2, 3):
                     rx.setdefault((ev["to"], ev["from"], mid), []).append((ev["t"], typ))
+                elif typ in (0, 1) and code >= 64:
+                    # a separate response: completes the request with its token (as an ACK
+                    # with the request's id would)
+                    try:
+                        rtok = cw.decode(b, "udp")["token"]
+                    except Exception:
+                        continue
+                    for (f2, t2, m2), txs in tx.items():
+                        if f2 == ev["to"] and t2 == ev["from"]:
+                            try:
+                                if cw.decode(txs[0][1], "udp")["token"] == rtok:
+                                    rx.setdefault((f2, t2, m2), []).append((ev["t"], 2))
+                                    stats["ended_by_separate_response"] = \
+                                        stats.get("ended_by_separate_response", 0) + 1
+                            except Exception:
+                                pass
         elif k == "nack":
             a = sess_addr.get((ev["n"], ev["sess"]))
             if a:
@@ -85,7 +101,7 @@ def check_schedule(run, sim, params_of, witness, stats):
     for frm, to, mid, t in accepted:
         # "every Confirmable message accepted for sending is transmitted": also one that had
         # to wait for an NSTART slot (the horizon covers every predecessor being given up)
-        if params_of(frm) is None:
+        if params_of(frm) is None or to in getattr(sim, "c06_dropped_peers", ()):
             continue
         stats["accepted"] = stats.get("accepted", 0) + 1
         if (frm, to, mid) not in tx:
@@ -97,7 +113,7 @@ def check_schedule(run, sim, params_of, witness, stats):
             stats["parked_then_sent"] = stats.get("parked_then_sent", 0) + 1
     for (frm, to, mid), txs in sorted(tx.items()):
         p = params_of(frm)
-        if p is None:
+        if p is None or to in getattr(sim, "c06_dropped_peers", ()):
             continue
         stats["con_messages"] += 1
         w = dict(witness, message={"from": frm, "to": to, "mid": mid,
@@ -215,6 +231,7 @@ def scenario_client(exe, r, idx):
             sim.cmd("pin %d" % pin)
         sim.add_node(0)
         plans = {}
+        dropped = set()
         lo, hi = p.t_bounds()
         tmid = (lo + hi) / 2
         if failsend:
@@ -226,7 +243,8 @@ def scenario_client(exe, r, idx):
         for m in range(nmsg):
             sid = r.randrange(nsess)
             tok = bytes([0xA0 + m, sid])
-            kind = r.choice(["never", "ack", "ack", "rst", "wrongmid", "dupack"])
+            kind = r.choice(["never", "ack", "ack", "rst", "wrongmid", "dupack", "sepnon",
+                             "non-request-same-mid", "non-response-same-mid-other-token"])
             k = r.randint(0, mr) if kind != "never" else 0
             gap_k = tmid * (2 ** k)
             dchoice = r.choice(["0", "1", "mid", "gap-1", "gap", "gap+1", "late"])
@@ -263,6 +281,21 @@ def scenario_client(exe, r, idx):
                 # message ids no message of this run uses
                 sim.inject(to, frm, empty(2, mid ^ 0x8000), d)
                 sim.inject(to, frm, empty(3, mid ^ 0x4000), d + 1)
+            elif pl["kind"] == "sepnon":
+                # the answer comes as a separate Non-confirmable response (own message id, the
+                # request's token): it ends the exchange like an ACK would
+                sim.inject(to, frm, cw.encode(cw.msg(0x45, type=1, mid=(mid ^ 0x2aaa) & 0xffff,
+                                                     token=tok, payload=b"s"), "udp"), d)
+            elif pl["kind"] == "non-request-same-mid":
+                # a Non-confirmable REQUEST of the peer that happens to use the same message id
+                # (ids are per sender): neither ACK nor RST nor a response - nothing ends
+                sim.inject(to, frm, cw.encode(cw.msg(1, type=1, mid=mid, token=b"\x5a",
+                                                     options=[(11, b"zz")]), "udp"), d)
+            elif pl["kind"] == "non-response-same-mid-other-token":
+                # a Non-confirmable response (to something else: its token is nobody's) whose
+                # message id, drawn from the peer's own id space, equals the pending one
+                sim.inject(to, frm, cw.encode(cw.msg(0x45, type=1, mid=mid, token=b"\x5b\x5b",
+                                                     payload=b"x"), "udp"), d)
             elif pl["kind"] == "dupack":
                 sim.inject(to, frm, empty(2, mid), d)
                 sim.inject(to, frm, empty(2, mid), d + 10)
@@ -270,6 +303,13 @@ def scenario_client(exe, r, idx):
 
         for s in range(nsess):
             sim.peers[PEER % (s + 1)] = peer
+        if nsess > 1 and r.random() < 0.3:
+            # the application drops one of the sessions while messages are pending: the others,
+            # which share the send queue with it, keep their schedule
+            dsid = r.randrange(nsess)
+            dropped.add(PEER % (dsid + 1))
+            sim.call_at(sim.now + r.choice([1, 60, int(tmid / 2), int(tmid) + 3, int(tmid * 3)]),
+                        lambda sm, dsid=dsid: sm.cmd("disconnect 0 %d" % dsid))
         for submit, sid, tok in msgs:
             sim.call_at(sim.now + submit, lambda sm, sid=sid, tok=tok: sm.cmd(
                 "send 0 %d type=0 code=1 token=%s opts=11=61" % (sid, tok.hex())))
@@ -279,6 +319,10 @@ def scenario_client(exe, r, idx):
         sig = ("client", at, arf, mr, pin, nsess, nstart, failsend,
                tuple(sorted((pl["kind"], pl["k"], pl["dchoice"]) for pl in plans.values())),
                sim.timers_first)
+        # (messages of the dropped session are not judged: what a disconnect does to them is
+        # not part of this statement; `params_of` sees the sender address only, so the drop is
+        # passed through the simulation object)
+        sim.c06_dropped_peers = dropped
         return sim, w, (lambda a: p if a.startswith("10.0.0.") else None), sig
     except Exception:
         w.close(kill=True)
